@@ -99,7 +99,7 @@ def type_ok(v, t):
             return True
         if a.startswith("="):
             return True
-        if a == "bytes" and isinstance(v, (bytes, bytearray)):
+        if a.startswith("bytes") and isinstance(v, (bytes, bytearray)):
             return True
         if a in ("None", "none") and v is None:
             return True
@@ -124,6 +124,8 @@ def type_ok(v, t):
         if a == "intset" and isinstance(v, (tuple, list, set, frozenset)):
             return True
         if a == "emptydict" and isinstance(v, dict) and not v:
+            return True
+        if a == "file" and hasattr(v, "read") and hasattr(v, "data"):
             return True
         if a in CLASSES:
             modname, _, cls = CLASSES[a]["class"].rpartition(".")
@@ -180,6 +182,9 @@ def check_call(fq, args, kwargs=None, contract=None, fn=None):
             vt = var.get("params") or {}
             if all(p not in env or type_ok(env[p], t) for p, t in vt.items()):
                 bad = []
+                c = dict(c)
+                c.pop("variants")
+                c.update(var)     # the typing variant's own clauses apply
                 break
     for p, t in bad:
         return {"status": "skip", "why": "argument %s not of type %s" % (p, t)}
@@ -199,6 +204,23 @@ def check_call(fq, args, kwargs=None, contract=None, fn=None):
     failures = []
     raised = None
     result = None
+    # raises-conditions and case guards are about the PRE-state
+    raises = c.get("raises") or {}
+    pre_raise = {}
+    for k, cond in raises.items():
+        try:
+            pre_raise[k] = bool(ev(cond, env))
+        except Exception:
+            pre_raise[k] = False
+    pre_case = None
+    if c.get("cases"):
+        for i, case in enumerate(c["cases"]):
+            try:
+                if case.get("when") is None or ev(case["when"], env):
+                    pre_case = i
+                    break
+            except Exception:
+                continue
     try:
         result = call_with_timeout(fn, ba.args, ba.kwargs)
     except CallTimeout:
@@ -208,7 +230,6 @@ def check_call(fq, args, kwargs=None, contract=None, fn=None):
         raised = e
     except Exception as e:  # noqa
         raised = e
-    raises = c.get("raises") or {}
     if raised is not None:
         name = type(raised).__name__
         full = type(raised).__module__ + "." + name
@@ -219,20 +240,14 @@ def check_call(fq, args, kwargs=None, contract=None, fn=None):
         if key is None:
             failures.append(("raises/no-unexpected-exception", "%s: %s" % (name, raised)))
         else:
-            try:
-                ok = ev(raises[key], env)
-            except Exception as e:
-                ok = False
+            ok = pre_raise.get(key, False)
             if not ok:
                 failures.append(("raises/%s-only-when-specified" % key, "%s raised: %s" % (name, raised)))
         observed = "raised %s" % name
     else:
         observed = short(result)
         for k, cond in raises.items():
-            try:
-                must = ev(cond, env)
-            except Exception:
-                must = False
+            must = pre_raise.get(k, False)
             if must:
                 failures.append(("raises/%s-not-missed" % k, "returned %s instead of raising %s" % (short(result), k)))
         if not failures:
@@ -242,11 +257,9 @@ def check_call(fq, args, kwargs=None, contract=None, fn=None):
             tag = "post"
             if cases:
                 sel = None
-                for i, case in enumerate(cases):
-                    if case.get("when") is None or ev(case["when"], env):
-                        sel = case
-                        tag = "post/case%d" % i
-                        break
+                if pre_case is not None:
+                    sel = cases[pre_case]
+                    tag = "post/case%d" % pre_case
                 if sel is None:
                     failures.append(("post/cases-complete", "no case applies"))
             if sel is not None:
